@@ -124,6 +124,16 @@ def F10():
     return np.allclose(w[:5], want), f"new_weight bottom-up {w[:5].tolist()} expected {want.tolist()}"
 
 
+def F07():
+    X = np.hstack([np.array([[0.25, 0.5], [0.75, 0.5], [0.25, 0.25]]), cc(np.array([[0.0], [1.0], [0.5]]))])
+    try:
+        m = FusionART([HypersphereART(0.5, 0.25, 1.0, 1.0), FuzzyART(0.5, 0.25, 1.0)], [0.5, 0.5], [2, 2]).fit(X)
+    except Exception as e:
+        return False, f"fit raised {e!r}"
+    lens = [len(w) for w in m.modules[0].W]
+    return all(t == 3 for t in lens), f"Hypersphere channel weight lengths {lens} (own new_weight has length 3)"
+
+
 def F12():
     r = np.random.RandomState(3)
     Xs = [cc(r.randint(0, 5, size=(12, 2)) / 4.0) for _ in range(3)]
@@ -132,6 +142,26 @@ def F12():
     b = mk().partial_fit(Xs)
     ok = a.labels_deep_.tolist() == b.labels_deep_.tolist()
     return ok, "fit vs one-batch partial_fit labels_deep_ " + ("equal" if ok else "differ")
+
+
+def F14():
+    X = cc(np.array([[0.0, 0.0], [1.0, 1.0]]))
+    with quiet():
+        t = TopoART(FuzzyART(1.0, 2.0 ** -10, 1.0), 0.5, 2, 2).fit(X)
+        try:
+            p = t.predict(X[:1]).tolist()
+        except Exception as e:
+            return False, f"|W|={len(t.W)}: predict raised {e!r}"
+    return p == [-1], f"|W|={len(t.W)}: predict -> {p}"
+
+
+def F15():
+    try:
+        HypersphereART(0.875, 0.0, 1.0, 0.0)
+        GaussianART(0.5, np.array([0.0, 0.0]))
+        return False, "r_hat = 0 and sigma_init = 0 pass validate_params (training then divides by them)"
+    except AssertionError:
+        return True, "rejected by validate_params"
 
 
 def F17():
@@ -163,6 +193,40 @@ def F24():
         b = iCVIFuzzyART(0.5, 0.25, 1.0, iCVIFuzzyART.CALINSKIHARABASZ)
         rb = b.fit(X)
     return ra is a and rb is b, f"CVIART.fit -> {type(ra).__name__}, iCVIFuzzyART.fit -> {type(rb).__name__}"
+
+
+def F27():
+    X = cc(np.array([[1.0], [1.0], [0.0]]))
+    with quiet():
+        t = TopoART(FuzzyART(0.625, 1e-3, 1.0), 1.0, 8, 1)
+        t.fit(X, match_reset_func=lambda i, w, c, params, cache: c != 0, match_tracking="MT-", epsilon=1e-6)
+    bad = [w.tolist() for w in t.W if w.sum() < 0.625 * 1 - 1e-9]
+    return not bad, f"weights below rho*d: {bad}"
+
+
+def F28():
+    X = np.hstack([cc(np.array([[0.0], [1.0]])), cc(np.array([[0.25], [0.75]])), cc(np.array([[1.0], [0.0]]))])
+    m = FusionART([FuzzyART(0.5, 0.25, 1.0) for _ in range(3)], [0.5, 0.25, 0.25], [2, 2, 2])
+    for mod in m.modules:
+        mod.prepare_data(np.array([[0.0], [1.0]]))
+    m.fit(X)
+    try:
+        out = m.predict_regression(X, target_channels=[1, 2])
+    except Exception as e:
+        return False, f"predict_regression(target_channels=[1,2]) raised {e!r}"
+    want1 = np.array([m.get_channel_centers(1)[c] for c in m.predict(X, skip_channels=[1, 2])])
+    return np.array_equal(out[0], want1), "multi-target regression returns the target channels' centres"
+
+
+def F29():
+    f = FusionART([FuzzyART(0.5, 0.25, 1.0), FuzzyART(0.5, 0.25, 1.0)], [0.5, 0.5], [2, 2])
+    raw = np.array([[0.0], [1.0], [0.5]])
+    P = f.prepare_data([None, raw], skip_channels=[0])
+    try:
+        out = f.restore_data(P, skip_channels=[0])
+    except Exception as e:
+        return False, f"restore_data(skip_channels=[0]) raised {e!r}"
+    return np.allclose(out[0], raw), "restore(prepare(.)) round trip with the first channel skipped"
 
 
 ALL = {k: v for k, v in list(globals().items()) if k[0] == "F" and k[1:3].isdigit()}
